@@ -31,7 +31,9 @@ fn handler_app_array(ps: &[(String, String)]) -> Ohkami {
 }
 
 fn gen_part(rng: &mut Rng, colon_ok: bool) -> String {
-    let s = match rng.below(9) {
+    let s = match rng.below(10) {
+        // long credentials (API tokens as passwords): lengths around 2^7 and 2^8 so that `user:password` crosses 255 / 256 bytes
+        9 => { let n = *rng.pick(&[120usize, 126, 127, 128, 200, 250, 253, 254, 255, 256, 300]); rng.string_over(b"abcdefghijklmnopqrstuvwxyzABCDEFGHIJKLMNOPQRSTUVWXYZ0123456789-_.", n, n) }
         // names and passwords people really have: characters of the Latin-1 range (one byte in ISO-8859-1, two in UTF-8), other scripts, symbols
         8 => rng.pick(&["rené", "pässword", "señor", "ñandú", "café", "£5", "Ærø", "naïve", "ÿ", "µ", "日本語", "пароль", "é"]).to_string(),
         0 => String::new(),
